@@ -165,17 +165,19 @@ func checkAlwaysAvailableFile(fpath string) error {
 
 // FindPathConf returns the configuration corresponding to the given path name.
 func FindPathConf(pathConfs map[string]*Path, name string) (*Path, []string, error) {
+	// the name must be validated before any lookup, since keys of
+	// regexp path configurations ("~...") are not valid path names.
+	err := IsValidPathName(name)
+	if err != nil {
+		return nil, nil, fmt.Errorf("invalid path name: %w (%s)", err, name)
+	}
+
 	// static path configuration
 	if pathConf, ok := pathConfs[name]; ok {
 		return pathConf, nil, nil
 	}
 
 	// regexp path configuration
-
-	err := IsValidPathName(name)
-	if err != nil {
-		return nil, nil, fmt.Errorf("invalid path name: %w (%s)", err, name)
-	}
 
 	// gather and sort all regexp path configs
 	var regexpPathConfs []*Path
